@@ -7,6 +7,7 @@ import (
 	"fmt"
 	"net"
 	"net/netip"
+	"reflect"
 	"sort"
 	"strings"
 	"testing"
@@ -122,10 +123,12 @@ type c15Outcome struct {
 	setErr   map[int]error
 	bfdErr   error
 	callback int
+	hostileAccepted bool
+	hostileRejected int
 }
 
 // c15Build drives a fresh session manager: sessions created in `order`, then Set in `order`.
-func c15Build(prog *vfFRRProgram, order []int, adShuffle *vfRand) (*c15Outcome, error) {
+func c15Build(prog *vfFRRProgram, order []int, adShuffle *vfRand, hostile *vfRand) (*c15Outcome, error) {
 	out := &c15Outcome{refused: map[int]error{}, setErr: map[int]error{}}
 	l := log.NewNopLogger()
 	sm := NewSessionManager(l, logging.LevelInfo, c15Node, c15Namespace)
@@ -163,6 +166,42 @@ func c15Build(prog *vfFRRProgram, order []int, adShuffle *vfRand) (*c15Outcome, 
 		}
 		if err := s.Set(advs...); err != nil {
 			out.setErr[i] = err
+		}
+	}
+	if hostile != nil && len(created) >= 2 {
+		// a rejected Set (an advertisement with more than 63 communities, not in first position) must leave
+		// no trace: afterwards another session re-submits its own, unchanged advertisements, which
+		// regenerates the resource; the oracle then judges it against the unchanged request
+		var idx []int
+		for i := range created {
+			idx = append(idx, i)
+		}
+		sort.Ints(idx)
+		j := idx[hostile.Intn(len(idx))]
+		advs, err := c15Advs(prog.Sessions[j].Ads)
+		if err == nil && len(advs) >= 1 && out.setErr[j] == nil {
+			bad := *advs[len(advs)-1]
+			bad.Communities = nil
+			for x := 0; x < 64; x++ {
+				cm, _ := community.New(fmt.Sprintf("650%02d:%d", x%90, x))
+				bad.Communities = append(bad.Communities, cm)
+			}
+			try := append(append([]*bgp.Advertisement(nil), advs[:1]...), &bad)
+			if err := created[j].Set(try...); err == nil {
+				out.hostileAccepted = true
+			} else {
+				out.hostileRejected++
+			}
+			for _, k := range idx {
+				if k == j || out.setErr[k] != nil {
+					continue
+				}
+				again, err := c15Advs(prog.Sessions[k].Ads)
+				if err == nil {
+					_ = created[k].Set(again...)
+				}
+				break
+			}
 		}
 	}
 	return out, nil
@@ -538,7 +577,11 @@ func c15Case(c *vfCase) {
 	for i := range ident {
 		ident[i] = i
 	}
-	out, err := c15Build(&prog, ident, nil)
+	var hostile *vfRand
+	if c.R.Chance(1, 3) {
+		hostile = c.R.Fork()
+	}
+	out, err := c15Build(&prog, ident, nil, hostile)
 	if err != nil {
 		c.Inconclusive("harness could not convert the program: " + err.Error())
 		return
@@ -582,6 +625,25 @@ func c15Case(c *vfCase) {
 	}
 	c.Count("programs")
 	cfg := out.cfg
+	if out.hostileRejected > 0 {
+		c.Count("rejected-sets-followed-by-regeneration")
+	}
+	if out.hostileAccepted {
+		c.Count("oversized-community-list-accepted")
+	}
+	// what the reconciler does at debug level after applying the resource: dump it (passwords blanked).
+	// The dump must work on a copy; the resource that keeps being applied must stay what it was.
+	{
+		before := cfg.DeepCopy()
+		_, _ = ConfigToDump(*cfg)
+		c.Eval()
+		c.Count("comparisons")
+		if !reflect.DeepEqual(before.Spec, cfg.Spec) {
+			k.violation("dump:applied-configuration-mutated", "ConfigToDump changed the FRRConfiguration it was given (the reconciler dumps the desired configuration it keeps applying)", nil)
+			cfg = before
+			k.cfg = before
+		}
+	}
 	if c.WantSample() {
 		c.Sample(map[string]any{"program": prog, "routers": len(cfg.Spec.BGP.Routers)})
 	}
@@ -723,7 +785,7 @@ func c15Case(c *vfCase) {
 		if oi > 0 {
 			as = shuf.Fork()
 		}
-		o2, err := c15Build(&prog, ord, as)
+		o2, err := c15Build(&prog, ord, as, nil)
 		c.Eval()
 		c.Count("comparisons")
 		c.Count("order-permutations-compared")
